@@ -911,10 +911,14 @@ def judge(out, case, tables, real, drv_replies, rows, res, cdir, pair_rejected=F
     if kind == 'exclusive-file':
         row = tables.by_key[tuple(case['focus'])]
         keys = sorted({row['file'][vi]['key'] for s in ('prof', 'dflt') for vi, _ in case['assign'][row['owner'] + '/' + row['dest']].get(s, [])})
-        if not failed:
+        declared = set(keys) in ref.DOCUMENTED_FILE_EXCLUSIVE
+        if declared and not failed:
             out.violation('options:file-exclusive-not-rejected:' + '+'.join(keys),
-                          f"the configuration file sets the mutually exclusive options {keys} in one section; the run went on with "
-                          f"{row['dest']} = {res['handler']['args'].get(row['dest'])}", rp)
+                          f"the configuration file sets the options {keys}, documented as not usable together, in one section; the run went on "
+                          f"with {row['dest']} = {res['handler']['args'].get(row['dest'])}", rp)
+        if not declared:
+            # not declared exclusive in the file (README): recorded, not judged
+            out.count('observation:file-keys-' + '+'.join(keys) + ('-accepted' if not failed else '-rejected'))
         return agreed
     exp_all = {}
     for row in rows:
